@@ -19,7 +19,7 @@ RULE = ("heartbeat streams of 1-40 heartbeats with strictly increasing timestamp
         "heartbeats whose end ties with the previous event's end) × pulsetimes {0, fractional, large}, fed through "
         "get(limit=1) -> heartbeat_merge -> replace_last | insert on each backend, in a store that also holds 1-2 "
         "other buckets (created before and after) whose events start and end at the stream's own instants, some of them "
-        "written while the stream is being fed; in a quarter of the cases the "
+        "written while the stream is being fed; some streams keep one activity alive for more than a day (merged duration > 24 h); in a quarter of the cases the "
         "bucket is deleted and re-created mid-stream and the stream carries on; after EVERY "
         "heartbeat the bucket is compared with heartbeat_reduce(prefix) (real transform and integer reference) and "
         "the other buckets with their initial dump; evaluations = heartbeats; non-trivial = stream has a merge and a "
@@ -42,12 +42,21 @@ def gen_case(rng, ctx):
         unit = 10**6
     pu = rng.choice([0, 1000, 1500, unit, 2 * unit, 5 * unit, 60 * 10**6, 10**9])
     n = rng.randrange(1, 41)
+    marathon = rng.random() < 0.08
+    if marathon:
+        # one activity kept alive for more than a day: the merged event's duration grows past 24 h
+        unit, pu, n = 3600 * 10**6, 2 * 3600 * 10**6, rng.randrange(26, 41)
     stream = []
     ts = base
     end_prev = base
     data = rng.choice(_DATA)
     mode = rng.choice(["repeat", "alternate", "random"])
     for i in range(n):
+        if marathon:
+            stream.append(dict(ts=ts, dur=rng.choice([0, 10 * 10**6, 10 * 10**6 + 1]), data=_DATA[0] if i < n - 3 else rng.choice(_DATA[:2])))
+            end_prev = max(end_prev, ts + stream[-1]["dur"])
+            ts += unit
+            continue
         if mode == "alternate":
             data = _DATA[i % 2]
         elif mode == "random" or rng.random() < 0.2:
@@ -167,7 +176,8 @@ def run_case(case, ctx):
     end_tie = any(a == b_ for a, b_ in zip(ends, ends[1:]))
     co = any(o["evs"] or o.get("late") for o in case["others"])
     cls = ("m" in decisions, "i" in decisions[1:], "mi" in decisions, "im" in decisions[1:])
-    sig = (backend, cls, end_tie, tuple(sorted({o["when"] for o in case["others"]})), 0 if pu == 0 else (1 if pu < 10**7 else 2),
+    sig = (backend, cls, end_tie, max((t[1] for t in tuples), default=0) >= 0 and any(
+        (b_[0] + b_[1]) - a[0] >= 86400 * 10**6 for a, b_ in zip(tuples[:1], tuples[-1:])), tuple(sorted({o["when"] for o in case["others"]})), 0 if pu == 0 else (1 if pu < 10**7 else 2),
            case.get("recreate_at") is not None)
     nontriv = cls[0] and cls[1] and (end_tie or co)
     n = len(stream)
